@@ -61,6 +61,11 @@ void wl_env_swarm(void)
      * and callers that are not streams (external threads) were never counted by it */
     if (plan_n(6) == 0)
         env_int("ABT_MAX_NUM_XSTREAMS", 1 + (long)plan_n(3));
+    /* the default stack size is any number of bytes (the library rounds it as it needs) */
+    if (plan_n(10) == 0) {
+        static const long ss[] = { 16392, 20008, 33000, 65536 + 24 };
+        env_int("ABT_THREAD_STACKSIZE", ss[plan_n(4)]);
+    }
 }
 
 /* ---- a user-defined FIFO pool (ABT_pool_user_def): the library then keeps the
